@@ -74,3 +74,6 @@
 (assert (forall ((h Heap) (h2 Heap) (s Str) (v Val)) (! (=> (and (JV h s v) (ext h h2)) (JV h2 s v)) :pattern ((JV h s v) (ext h h2)))))
 (assert (forall ((h Heap) (h2 Heap) (s Str) (A (Array Int Val)) (i Int) (n Int)) (! (=> (and (LS h s A i n) (ext h h2)) (LS h2 s A i n)) :pattern ((LS h s A i n) (ext h h2)))))
 (assert (forall ((h Heap) (h2 Heap) (s Str) (m Int) (o (Array Int Str)) (i Int) (n Int)) (! (=> (and (OS h s m o i n) (ext h h2)) (OS h2 s m o i n)) :pattern ((OS h s m o i n) (ext h h2)))))
+(assert (and (= (slen str_dot) 1) (= (at str_dot 0) 46)))
+(assert (and (= (slen str_null) 4) (= (at str_null 0) 110) (= (at str_null 1) 117) (= (at str_null 2) 108) (= (at str_null 3) 108)))
+(assert (and (= (slen str_dot0) 2) (= (at str_dot0 0) 46) (= (at str_dot0 1) 48)))
